@@ -33,7 +33,7 @@ inductive Ev
   | userinfo (iss tok : String) (status : Nat) (subject : Option String)
   | introspect (iss : String) (p : C04.Presented) (tok : String) (status : Nat) (active : Bool) (members : List String)
   | revoke (iss : String) (p : C04.Presented) (tok : String) (status : Nat) (performed : Bool)
-  | endSession (subject client : String) (status : Nat) (terminated : Bool)
+  | endSession (iss subject client : String) (status : Nat) (terminated : Bool)
   | exchange (iss tok : String) (success : Bool)
   /-- the refresh grant by the owning client; `rotated` = the response replaced the refresh token by a new one -/
   | refresh (iss tok : String) (success rotated : Bool)
@@ -84,7 +84,7 @@ def judge (m : MonState) (now : Int) (e : Ev) : Option String :=
       | some c =>
         if c.id == t.client then (if status != 200 then some "revoke:owner-refused" else none)   -- whatever the hint
         else if status == 200 && t.live then some "revoke:foreign-client-not-refused" else none
-  | .endSession _ _ status terminated => if status < 400 && !terminated then some "end_session:session-not-terminated" else none
+  | .endSession _ _ _ status terminated => if status < 400 && !terminated then some "end_session:session-not-terminated" else none
   | .exchange iss tok success => if success then honourable m "exchange" ":unknown-subject-token-accepted" ":dead-subject-token-accepted" iss tok false else none
   | .refresh iss tok success _ =>
     if success then
@@ -107,8 +107,9 @@ def update (m : MonState) (now : Int) (e : Ev) : MonState :=
         kill m fun x => x.label == tok || (t.refresh && x.grant == t.grant)
       else m
     | _, _ => m
-  | .endSession sub cl status terminated =>
-    if status < 400 && terminated then kill m fun x => x.subject == sub && x.client == cl else m
+  | .endSession iss sub cl status terminated =>
+    -- a logout ends the session at the issuer it is addressed to (another issuer of the same provider is another tenant)
+    if status < 400 && terminated then kill m fun x => x.subject == sub && x.client == cl && x.issuer == iss else m
   | .refresh _ tok success rotated =>
     match find m tok with
     | some t => if success && rotated then kill m (·.grant == t.grant) else m     -- replaced by the tokens of the response
